@@ -93,6 +93,9 @@ var preludeBlocks = []preludeBlock{
 (assert (forall ((a Int) (n Int)) (! (=> (and (<= 0 a) (< a n)) (= (umod a n) a)) :pattern ((umod a n)))))
 (assert (forall ((a Int) (c Int) (n Int)) (! (=> (and (>= c 0) (> n 0) (= a (+ c n))) (= (umod a n) (umod c n))) :pattern ((umod a n) (umod c n)))))
 `},
+	{[]string{"ix"}, `(declare-fun ix (Int Int) Int)
+(assert (forall ((o Int) (i Int)) (! (= (ix o i) (+ o i)) :pattern ((ix o i)))))
+`},
 	shiftTruncBlock("b", SBool, "false"),
 	shiftTruncBlock("i", SInt, "0"),
 	shiftTruncBlock("r", SReal, "0.0"),
